@@ -119,7 +119,15 @@ func genLikePattern(t *rapid.T, s string, label string) string {
 		}
 		return out
 	}
-	switch rapid.IntRange(0, 5).Draw(t, label+"_pm") {
+	switch rapid.IntRange(0, 6).Draw(t, label+"_pm") {
+	case 6:
+		// free pattern over the whole pattern syntax: literals, wildcards, escaped wildcard, escaped backslash
+		n := rapid.IntRange(0, 8).Draw(t, label+"_fn")
+		out := ""
+		for i := 0; i < n; i++ {
+			out += rapid.SampledFrom([]string{"a", "b", "*", `\*`, `\\`, "é", "/", ".", `\\`}).Draw(t, label+"_fa")
+		}
+		return out
 	case 0:
 		return esc(s)
 	case 1:
@@ -136,7 +144,7 @@ func genLikePattern(t *rapid.T, s string, label string) string {
 	case 4:
 		return esc(s) + "x"
 	default:
-		return rapid.SampledFrom([]string{"a*", "*@example.com", "foo*bar", "", `\*`, "*a*"}).Draw(t, label+"_pp")
+		return rapid.SampledFrom([]string{"a*", "*@example.com", "foo*bar", "", `\*`, "*a*", `C:\\Users\\*`, `a\\`, `\\`, `\\\*`, `\*\\*\\`, `**`, `*\\`}).Draw(t, label+"_pp")
 	}
 }
 
